@@ -518,6 +518,50 @@ def m_rfind(ex, c, a, m):
     return NONE()
 
 
+@model(r'core::str::<impl str>::(matches|rmatches)::<.+>')
+def m_matches(ex, c, a, m):
+    s, p = as_S(a[0]), _pat(a[1])
+    if not p:
+        raise Unmodelled('matches with an empty pattern')
+    out, i = [], 0
+    while i + len(p) <= len(s):
+        if ex.branch(_match_at(s, i, p)):
+            out.append(S(s[i:i + len(p)])); i += len(p)
+        else:
+            i += 1
+    if m.group(1) == 'rmatches':
+        out.reverse()
+    return PyIter(out)
+
+
+_ASCII_WS = (0x20, 0x09, 0x0a, 0x0b, 0x0c, 0x0d)
+
+
+@model(r'core::str::<impl str>::(trim|trim_start|trim_end)')
+def m_trim(ex, c, a, m):
+    """whitespace trimming; only ASCII white space is modelled (a multi-byte white-space character is outside the model)"""
+    s = as_S(a[0])
+    op = m.group(1)
+
+    def is_ws(b):
+        if type(b) is int:
+            if b >= 0x80:
+                # U+0085, U+00A0, U+1680, U+2000.. are White_Space as well
+                raise Unmodelled('str::trim on non-ASCII bytes')
+            return b in _ASCII_WS
+        if ex.branch(z3.UGE(b, 0x80)):
+            raise Unmodelled('str::trim on non-ASCII bytes')
+        return ex.branch(zor([b == z3.BitVecVal(w, 8) for w in _ASCII_WS]))
+    lo, hi = 0, len(s)
+    if op in ('trim', 'trim_start'):
+        while lo < hi and is_ws(s[lo]):
+            lo += 1
+    if op in ('trim', 'trim_end'):
+        while hi > lo and is_ws(s[hi - 1]):
+            hi -= 1
+    return S(s[lo:hi])
+
+
 @model(r'core::str::<impl str>::(match_indices|rmatch_indices)::<.+>')
 def m_match_indices(ex, c, a, m):
     """(index, matched slice) of every non-overlapping match, from the front or from the back"""
@@ -1731,6 +1775,16 @@ def m_unit_default(ex, c, a, m):
 def m_int_eq(ex, c, a, m):
     r = ex.binop(ex.cur_fn, 'Eq', d(a[0]), d(a[1]), m.group(1))
     return r if m.group(2) == 'eq' else znot(r)
+
+
+@model(r'<(std::io::)?ErrorKind as PartialEq>::eq|<(\w+::)*VfsFileType as PartialEq>::eq')
+def m_unit_enum_eq(ex, c, a, m):
+    return d(a[0]).variant == d(a[1]).variant
+
+
+@model(r'<Vec<.+> as DerefMut>::deref_mut|<Vec<.+> as AsMut<.+>>::as_mut|Vec::<.+>::as_mut_slice')
+def m_vec_deref_mut(ex, c, a, m):
+    return a[0]
 
 
 @model(r'<Option<(u64|usize|u8|i64|u32|bool|char|(?:\w+::)*VfsFileType)> as PartialEq>::eq')
